@@ -272,6 +272,9 @@ def configs(md):
                         if not linear:
                             # the other documented non-linear solver
                             out.append((flat, linear, split, plan, 1, pi, 0, "scipy_root"))
+                        if not linear and flat and plan[0] == "none":
+                            # flat mode chosen at call time on a model DECLARED non-flat that carries non-zero changes
+                            out.append((flat, linear, split, plan, 1, pi, 0, "flat_at_call"))
                     if plan[0] == "none" and len(md["params"]) > 1:
                         out.append((flat, linear, split, plan, 3, 0, 0))
                     if plan[0] == "none" and len(md["params"]) > 2:
@@ -293,7 +296,14 @@ def check_config(md, cfg, res, ctx, cache):
     guess = md["guesses"][gi]
     res.ev()
     try:
-        m = build(md, flat, linear, plist, guess)
+        m = build(md, flat and history != "flat_at_call", linear, plist, guess)
+        if history == "flat_at_call":
+            stale = {}
+            for v in md["vars"]:
+                lev0 = guess.get(v) if guess and guess.get(v) is not None else 1.0
+                stale[v] = (lev0, 1.03 if v in md["log"] else 0.25)
+            m.assign(**stale)
+            res.count("flat_at_call_attempts")
     except Exception as e:
         bad("build_exception", "%s: %s" % (type(e).__name__, str(e)[:200]), error=type(e).__name__)
         return
@@ -366,6 +376,8 @@ def check_config(md, cfg, res, ctx, cache):
     if history == "scipy_root":
         kw["solver"] = "scipy_root"
         res.count("scipy_root_attempts")
+    if history == "flat_at_call":
+        kw["flat"] = True
     try:
         with contextlib.redirect_stdout(io.StringIO()):
             info = m.steady(return_info=True, unpack_singleton=False, **kw)
@@ -383,6 +395,8 @@ def check_config(md, cfg, res, ctx, cache):
     res.count("solved_" + name)
     if history == "scipy_root":
         res.count("solved_scipy_root")
+    if history == "flat_at_call":
+        res.count("solved_flat_at_call")
     res.nt((name,) + tuple(map(str, cfg)))
     try:
         sols = read(m, nvar)
@@ -494,7 +508,7 @@ def run(ctx, total, info):
     engine.run_shards(__name__, "shard", shards, ctx, total)
     c = total.counters
     info["exhaustive"] = True
-    info["floors"] = {"solved": (c.get("solved", 0), 250), "rough_first_pass_completed": (c.get("rough_first_pass_completed", 0), 40), "solved_scipy_root": (c.get("solved_scipy_root", 0), 100), "multi_block_structures": (len(total.classes.get("num_blocks", ())), 5)}
+    info["floors"] = {"solved": (c.get("solved", 0), 250), "rough_first_pass_completed": (c.get("rough_first_pass_completed", 0), 40), "solved_scipy_root": (c.get("solved_scipy_root", 0), 100), "solved_flat_at_call": (c.get("solved_flat_at_call", 0), 20), "multi_block_structures": (len(total.classes.get("num_blocks", ())), 5)}
     for md in models(ctx.tier):
         info["floors"]["solved_" + md["name"]] = (c.get("solved_" + md["name"], 0), 6)
 
